@@ -35,7 +35,7 @@ def bump1(f, cond, delta):
 
 
 class CState:
-    FIELDS = ('dom', 'typ', 'nops', 'op', 'opc', 'udom', 'cnt', 'tot', 'in_n', 'in_elem', 'in_cnt', 'out_n', 'out_elem',
+    FIELDS = ('dom', 'typ', 'nops', 'op', 'opc', 'udom', 'cnt', 'tot', 'uelem', 'in_n', 'in_elem', 'in_cnt', 'out_n', 'out_elem',
               'out_cnt', 'b_member', 'b_name', 'bg', 'bi', 'bo', 'size', 'rank')
 
     def copy(self):
@@ -52,6 +52,8 @@ def fresh_state(tag):
     s = CState()
     dom, typ, nops, op, opc = f('dom', L, B), f('typ', L, GTypeSort), f('nops', L, I), f('op', L, I, L), f('opc', L, L, I)
     udom, cnt, tot = f('udom', L, B), f('cnt', L, L, I), f('tot', L, I)
+    uelem = f('uelem', L, I, L)
+    s.uelem = lambda g, j: uelem(g, j)
     in_elem, in_cnt, out_elem, out_cnt = f('in_elem', I, L), f('in_cnt', L, I), f('out_elem', I, L), f('out_cnt', L, I)
     bg, bi, bo = f('bg', L, I), f('bi', L, I), f('bo', L, I)
     rank = f('rank', L, I)
@@ -73,6 +75,7 @@ def empty_state():
     s.op = lambda l, i: l
     s.opc = lambda u, g: z
     s.udom, s.cnt, s.tot = (lambda l: f), (lambda g, u: z), (lambda g: z)
+    s.uelem = lambda g, j: g
     s.in_n = s.out_n = z
     s.in_elem = s.out_elem = (lambda i: z3.Const('nolabel', LabelSort))
     s.in_cnt = s.out_cnt = (lambda l: z)
@@ -104,6 +107,7 @@ def rep_clauses(S, g, u, i):
     c['R-opc-nonneg'] = z3.And(S.opc(u, g) >= 0, S.nops(u) >= 0, S.opc(u, g) <= S.nops(u))
     c['R-cnt-nonneg'] = z3.And(S.cnt(g, u) >= 0, S.tot(g) >= 0, S.cnt(g, u) <= S.tot(g))
     c['R-absent-empty'] = z3.Implies(z3.Not(S.udom(g)), z3.And(S.cnt(g, u) == 0, S.tot(g) == 0))
+    c['R-users-positions'] = z3.Implies(z3.And(i >= 0, i < S.tot(g)), S.cnt(g, S.uelem(g, i)) >= 1)
     c['R-tot-zero'] = z3.Implies(z3.And(S.tot(g) > 0, S.cnt(g, u) == 0), z3.BoolVal(True))
     c['R-inout-nonneg'] = z3.And(S.in_cnt(g) >= 0, S.out_cnt(g) >= 0, S.in_n >= 0, S.out_n >= 0, S.in_cnt(g) <= S.in_n, S.out_cnt(g) <= S.out_n)
     c['R-in-elem'] = z3.Implies(z3.And(i >= 0, i < S.in_n), S.in_cnt(S.in_elem(i)) >= 1)
@@ -278,10 +282,130 @@ class GatesMap(Model):
         self.h.S = S
 
     def m_getattr(self, it, name):
+        if name == 'values':
+            return Native('gates.values', lambda: GateValues(self.h))
         raise Unsupported(f'_gates.{name} (whole-map operation) on an abstract circuit')
 
     def m_iter(self, it):
         raise Unsupported('iteration over all gates of an abstract circuit needs an invariant')
+
+
+class GateValues(Model):
+    """circuit._gates.values(): only comprehension patterns that abstract over ALL gates are supported"""
+
+    def __init__(self, h):
+        self.h = h
+
+    def m_dictcomp(self, it, e, env, module):
+        """{x.label: F(x) for x in gates.values()}  ->  abstract int map  l |-> F(gate l)  on dom"""
+        import ast as _ast
+        g = e.generators[0]
+        if not (isinstance(g.target, _ast.Name) and isinstance(e.key, _ast.Attribute) and e.key.attr == 'label'
+                and isinstance(e.key.value, _ast.Name) and e.key.value.id == g.target.id):
+            raise Unsupported('dict comprehension shape over gates')
+        S = self.h.S
+        lam = it.ctx.fresh(LabelSort, 'lam')
+        env2 = {'__parent__': env, '__qualname__': env.get('__qualname__', '')}
+        env2[g.target.id] = make_gate_obj(it, S, lam)
+        before = it.ctx.decisions
+        npc = len(it.ctx.pc)
+        it.ctx.assume(S.dom(lam))
+        v = it.eval(e.value, env2, module)
+        if it.ctx.decisions != before:
+            raise Unsupported('value of the comprehension branches on the gate')
+        vt = it.int_term(v)
+        return IntMap(lambda l: S.dom(l), lambda l, vt=vt, lam=lam: z3.substitute(vt, (lam, l)))
+
+    def m_iter(self, it):
+        raise Unsupported('iteration over all gates of an abstract circuit needs an invariant')
+
+
+class IntMap(Model):
+    """dict[label -> int] in functional form (in-degree map of top_sort)"""
+
+    def __init__(self, dom, val):
+        self.dom, self.val = dom, val
+
+    def m_getitem(self, it, k):
+        kt = it.label_term(k)
+        if not it.ctx.choose(_simp(self.dom(kt))):
+            it.raise_('KeyError', 'int map')
+        return Sym(self.val(kt))
+
+    def m_setitem(self, it, k, v):
+        kt, vt = it.label_term(k), it.int_term(v)
+        d, f = self.dom, self.val
+        self.dom = lambda l: z3.Or(l == kt, d(l))
+
+        def val(l, f=f):
+            c = f(l)
+            return z3.If(l == kt, vt, c)
+        self.val = val
+
+    def m_contains(self, it, k):
+        return _simp(self.dom(it.label_term(k)))
+
+    def m_getattr(self, it, name):
+        raise Unsupported('int map method ' + name)
+
+    def m_listcomp_items(self, it, e, env, module):
+        """[k for k, v in self.items() if C(v)]  ->  bag of the keys whose value satisfies C (each once)"""
+        import ast as _ast
+        g = e.generators[0]
+        a, b = g.target.elts
+        if not (isinstance(a, _ast.Name) and isinstance(b, _ast.Name) and isinstance(e.elt, _ast.Name) and e.elt.id == a.id and len(g.ifs) == 1):
+            raise Unsupported('list comprehension shape over items()')
+        lam = it.ctx.fresh(LabelSort, 'lam')
+        env2 = {'__parent__': env, '__qualname__': env.get('__qualname__', ''), a.id: Sym(lam), b.id: Sym(self.val(lam))}
+        before = it.ctx.decisions
+        c = it.truth(it.eval(g.ifs[0], env2, module))
+        if it.ctx.decisions != before:
+            raise Unsupported('filter of the comprehension branches')
+        ct = it.as_bool_term(c) if not isinstance(c, bool) else z3.BoolVal(c)
+        dom = self.dom
+        return LabelBag(lambda l, ct=ct, lam=lam, dom=dom: z3.And(dom(l), z3.substitute(ct, (lam, l))))
+
+
+class LabelBag(Model):
+    """a python list used as a work list of pairwise distinct labels: membership predicate only. pop() returns an
+    arbitrary member (the proof holds for every choice, so LIFO order is irrelevant); append() of a label that is
+    already a member would break the no-duplicates reading and is an obligation."""
+
+    def __init__(self, member):
+        self.member = member
+
+    def m_truth_term(self):
+        l = z3.Const('l!bag', LabelSort)
+        return z3.Exists([l], self.member(l))
+
+    def m_len(self, it):
+        # only used for truthiness: a non-negative int that is zero iff the bag is empty
+        n = it.ctx.fresh(I, 'baglen')
+        it.ctx.assume(n >= 0)
+        it.ctx.assume((n > 0) == self.m_truth_term())
+        return Sym(n)
+
+    def m_getattr(self, it, name):
+        if name == 'pop':
+            def pop(*a):
+                if a:
+                    raise Unsupported('pop(index) on a label bag')
+                if not it.ctx.choose(self.m_truth_term()):
+                    it.raise_('IndexError', 'pop from empty list')
+                x = it.ctx.fresh(LabelSort, 'popped')
+                it.ctx.assume(self.member(x))
+                m = self.member
+                self.member = lambda l: z3.And(l != x, m(l))
+                return Sym(x)
+            return Native('bag.pop', pop)
+        if name == 'append':
+            def append(v):
+                vt = it.label_term(v)
+                it.ctx.check('worklist-has-no-duplicates', z3.Not(self.member(vt)), {'witness': 'duplicate-in-queue'})
+                m = self.member
+                self.member = lambda l: z3.Or(l == vt, m(l))
+            return Native('bag.append', append)
+        raise Unsupported('label bag method ' + name)
 
 
 def make_gate_obj(it, S, kt):
@@ -354,6 +478,18 @@ class UsersRef(Model):
             return z3.If(z3.And(g == kt, a != b), z3.If(u == a, c - 1, z3.If(u == b, c + 1, c)), c)
         S.cnt = cnt2
         h.S = S
+
+    prefix = []
+
+    @property
+    def n(self):
+        return self.h.S.tot(self.kt)
+
+    def elem(self, j):
+        return self.h.S.uelem(self.kt, j)
+
+    def concrete_len(self, it=None):
+        return None
 
     def m_iter(self, it):
         raise Unsupported('iteration over a users list of an abstract circuit needs an invariant')
@@ -873,3 +1009,19 @@ def install_order_contracts(it):
         return handler
     it.contracts[CIRC + '::Circuit.order_inputs'] = make('in')
     it.contracts[CIRC + '::Circuit.order_outputs'] = make('out')
+
+
+def install_get_gate_users_contract(it):
+    """Circuit.get_gate_users(label) by contract: raises GateDoesntExistError for an absent gate, else returns a view
+    of users[label] (an absent key is the empty list: count 0, length 0 — representation fact R-absent-empty)."""
+    def handler(it_, fv, args, kwargs):
+        self_, label = _bind3(args, kwargs, ('label',))[:2]
+        h = getattr(self_, 'holder', None)
+        if h is None:
+            return it_.call_function(fv, args, kwargs, force_inline=True)
+        kt = it_.label_term(label)
+        if not it_.ctx.choose(_simp(h.S.dom(kt))):
+            m = it_.load_module('cirbo.core.circuit.exceptions')
+            raise PyRaise(it_.instantiate(m.env['GateDoesntExistError'], [], {}))
+        return UsersRef(h, kt)
+    it.contracts[CIRC + '::Circuit.get_gate_users'] = handler
